@@ -383,19 +383,46 @@ Proof. destruct l; reflexivity. Qed.
 Lemma zlen_app1 {A} (l : list A) x : zlen (l ++ [x]) = zlen l + 1.
 Proof. unfold zlen. rewrite app_length. cbn. lia. Qed.
 
-Lemma for_loop_log_cut {A} k (pf : list (list A)) start off (body : Z * list A -> Z -> ctl log_result Z) (mk : list (list A) -> log_result) :
+Lemma for_loop_log_cut {A} k (pf : list (list A)) start off (e : Z -> Z) (body : Z * list A -> Z -> ctl log_result Z)
+      (mk : list (list A) -> log_result) :
   start + off = 1 ->
-  (forall i F c, body (i, F) c = if c + zlen F >=? k then Ret (mk (slice_to pf (i + off))) else Nxt (c + zlen F)) ->
+  (forall i F c, body (i, F) c = if c + zlen F >=? k then Ret (mk (slice_to pf (e i))) else Nxt (c + zlen F)) ->
+  (forall i, e i = i + off) ->
   forall suf pre c, pf = pre ++ suf ->
     match for_loop (enum_from (start + zlen pre) suf) body c with inl r => Some r | inr _ => Some (mk pf) end
     = Some (mk (pre ++ log_cut k c suf)).
 Proof.
-  intros Hso Hb. induction suf as [|F r IH]; intros pre c E.
+  intros Hso Hb He. induction suf as [|F r IH]; intros pre c E.
   - cbn. rewrite app_nil_r in *. now subst.
-  - cbn [enum_from]. rewrite for_loop_cons, Hb. cbn [log_cut]. destruct (c + zlen F >=? k).
+  - cbn [enum_from]. rewrite for_loop_cons, Hb, He. cbn [log_cut]. destruct (c + zlen F >=? k).
     + f_equal. f_equal. rewrite slice_to_firstn by (pose proof (zlen_nonneg pre); lia).
       replace (Z.to_nat (start + zlen pre + off)) with (length pre + 1)%nat by (unfold zlen; lia).
       subst pf. rewrite firstn_app_2. reflexivity.
     + specialize (IH (pre ++ [F]) (c + zlen F)). rewrite zlen_app1, <- app_assoc in IH. cbn [app] in IH.
       replace (start + zlen pre + 1) with (start + (zlen pre + 1)) by lia. rewrite IH by assumption. now rewrite <- app_assoc.
 Qed.
+
+(* ---- min(map(key, l)) / max(map(key, l)) are the keys of min(l, key=key) / max(l, key=key) ---- *)
+Lemma min_by_key {A} (key : A -> Z) r : forall x, fold_left Z.min (map key r) (key x) = key (min_by key r x).
+Proof.
+  induction r as [|y r IH]; intro x; cbn; [reflexivity|].
+  destruct (key y <? key x) eqn:E; zb2p.
+  - rewrite Z.min_r by lia. apply IH.
+  - rewrite Z.min_l by lia. apply IH.
+Qed.
+
+Lemma max_by_key {A} (key : A -> Z) r : forall x, fold_left Z.max (map key r) (key x) = key (max_by key r x).
+Proof.
+  induction r as [|y r IH]; intro x; cbn; [reflexivity|].
+  destruct (key y >? key x) eqn:E; zb2p.
+  - rewrite Z.max_r by lia. apply IH.
+  - rewrite Z.max_l by lia. apply IH.
+Qed.
+
+Lemma zmin_list_map_key (l : list wvals) obj :
+  zmin_list (map (fun f => item f obj) l) = item (py_min (fun f => item f obj) l []) obj.
+Proof. destruct l as [|x r]; cbn [map zmin_list py_min]; [now rewrite item_nil|]. apply (min_by_key (fun f => item f obj)). Qed.
+
+Lemma zmax_list_map_key (l : list wvals) obj :
+  zmax_list (map (fun f => item f obj) l) 0 = item (py_max (fun f => item f obj) l []) obj.
+Proof. destruct l as [|x r]; cbn [map zmax_list py_max]; [now rewrite item_nil|]. apply (max_by_key (fun f => item f obj)). Qed.
